@@ -135,7 +135,7 @@ class Preempt:
     TOOL = 3
     installed = False
     wide = False
-    codes = set()
+    codes = {}  # id(code) -> code (code objects compare by value, so identity is the key)
 
     @classmethod
     def install(cls):
@@ -149,9 +149,9 @@ class Preempt:
     @classmethod
     def add_code(cls, code):
         import types
-        if code in cls.codes:
+        if id(code) in cls.codes:
             return
-        cls.codes.add(code)
+        cls.codes[id(code)] = code
         sys.monitoring.set_local_events(cls.TOOL, code, sys.monitoring.events.LINE)
         for c in code.co_consts:
             if isinstance(c, types.CodeType):
@@ -193,7 +193,7 @@ class Preempt:
         t = getattr(_ctx, "task", None)
         if t is None or not t.trace:
             return None
-        if Preempt.wide and code not in Preempt.codes:
+        if Preempt.wide and id(code) not in Preempt.codes:
             fn = code.co_filename
             if fn.startswith(_HARNESS_DIR) or fn.startswith("<") or fn.endswith("threading.py"):
                 return sys.monitoring.DISABLE
@@ -223,6 +223,7 @@ class Sim:
         self.switches = 0
         self.stats = {}
         self.switch_hooks = []  # callables(task) run in the thread that receives the baton
+        self.sticky = 1  # weight of "current task continues" among same-instant candidates
 
     # ---- choices / log ---------------------------------------------------
     def choose(self, n, tag=""):
@@ -326,7 +327,18 @@ class Sim:
         tmin = min(t.ready_at for t in rs)
         horizon = max(tmin, self.now)
         cands = [t for t in rs if t.ready_at <= horizon]
-        nxt = cands[self.choose(len(cands), "sched")] if len(cands) > 1 else cands[0]
+        if len(cands) > 1:
+            # choice 0 = the boring alternative: the current task continues if it can
+            if self.cur in cands:
+                cands.remove(self.cur)
+                cands.insert(0, self.cur)
+                k = self.sticky
+            else:
+                k = 1
+            r = self.choose(len(cands) + k - 1, "sched")
+            nxt = cands[0] if r < k else cands[r - k + 1]
+        else:
+            nxt = cands[0]
         if nxt.ready_at > self.now:
             self.now = nxt.ready_at
         return nxt
